@@ -58,6 +58,15 @@ theorem input_untouched (cfg : Cfg) (fs : FS) (d : Path) (h : WriteHyp cfg fs d)
   rw [hw]
   exact ho _ hne
 
+/-- the object turns out not to be persistable under the current protocol (`dump` raises inside the update): the
+command fails, every path reads as before and no directory remains -/
+theorem failed_dump_untouched (cfg : Cfg) (fs : FS) (d : Path) (h : WriteHyp cfg fs d) :
+    ∃ w, update { cfg with dumpable := false } fs = (w, .raised "dump") ∧
+      (∀ q, w.fs.read q = fs.read q) ∧ w.fs.dirs = fs.dirs := by
+  unfold update
+  rw [skeleton_inner, skeleton_main]
+  exact update_dump_fails cfg fs d h
+
 /-- **crash safety**: if the process dies after any number `k` of the file operations of the run — the chunking of
 the writes is arbitrary, so this includes dying in the middle of writing the new archive — the destination reads
 either exactly as before or as the complete new archive -/
